@@ -33,6 +33,7 @@ type caseList struct {
 	N    int
 	Run  func(i int) caseResult
 	Name func(i int) string
+	Class func(i int) string // optional: input class of case i for finding signatures
 }
 
 var genLists = map[string]func(tier string) *caseList{}
@@ -195,7 +196,11 @@ func runGen(prop, tier string, chunk int, rep *Report) (ok, nontrivial, units in
 			if cl.Name != nil {
 				name = cl.Name(r.Task.From)
 			}
-			rep.add("process-died|"+name, "the worker process hosting the emulator died (fatal error / out of memory / no progress) while running case "+name, map[string]any{"case": r.Task.From, "name": name})
+			class := name
+			if cl.Class != nil {
+				class = cl.Class(r.Task.From)
+			}
+			rep.add("process-died|"+class, "the worker process hosting the emulator died (fatal error / out of memory / no progress) while running case "+name, map[string]any{"case": r.Task.From, "name": name})
 			continue
 		}
 		for i, v := range r.Viol {
